@@ -162,6 +162,8 @@ structure Grammar where
   prods : Array Prod
   kwTables : Array (List (List Nat))
   kwDefault : Nat
+  /-- capacity of the packrat storage (`nom_packrat::storage!(AnyNode, bool, 1024)`); fixed per thread, never changed -/
+  memoCap : Option Nat := some 1024
 deriving Inhabited
 
 def Grammar.prod (g : Grammar) (f : Nat) : Prod :=
@@ -178,9 +180,8 @@ deriving Repr, Inhabited, BEq, DecidableEq
 abbrev MKey := Nat × Nat × Bool
 abbrev MVal := Option (List Tree × Nat)
 
-/-- `PackratStorage`: map + FIFO key queue (front at head) + optional capacity -/
+/-- `PackratStorage`: map + FIFO key queue (front at head); the capacity is a constant of the grammar -/
 structure Memo where
-  cap : Option Nat := some 1024
   keys : List MKey := []
   tbl : Std.HashMap MKey MVal := {}
 deriving Inhabited
@@ -188,9 +189,9 @@ deriving Inhabited
 def Memo.find? (m : Memo) (k : MKey) : Option MVal := m.tbl[k]?
 
 /-- `PackratStorage::insert` (evict the oldest key when the queue is full) -/
-def Memo.insert (m : Memo) (k : MKey) (v : MVal) : Memo :=
+def Memo.insert (cap : Option Nat) (m : Memo) (k : MKey) (v : MVal) : Memo :=
   let m1 : Memo :=
-    match m.cap with
+    match cap with
     | some size =>
       if m.keys.length > size - 1 then
         match m.keys with
@@ -200,7 +201,7 @@ def Memo.insert (m : Memo) (k : MKey) (v : MVal) : Memo :=
     | none => m
   { m1 with keys := m1.keys ++ [k], tbl := m1.tbl.insert k v }
 
-def Memo.clear (m : Memo) : Memo := { m with keys := [], tbl := {} }
+def Memo.clear (_m : Memo) : Memo := { keys := [], tbl := {} }
 
 structure PState where
   dir : Nat := 0
@@ -473,9 +474,9 @@ def evalCall (g : Grammar) (inp : Input) : Nat → Nat → Nat → Rec → PStat
       if p.packrat then
         match run with
         | (.ok q r' ts, st') =>
-          (.ok q r' ts, { st' with memo := st'.memo.insert (f, pos, decide (st'.dir > 0)) (some (ts, q - pos)) })
+          (.ok q r' ts, { st' with memo := st'.memo.insert g.memoCap (f, pos, decide (st'.dir > 0)) (some (ts, q - pos)) })
         | (.err ep, st') =>
-          (.err ep, { st' with memo := st'.memo.insert (f, pos, decide (st'.dir > 0)) none })
+          (.err ep, { st' with memo := st'.memo.insert g.memoCap (f, pos, decide (st'.dir > 0)) none })
         | (.oof, st') => (.oof, st')
       else run
 end
